@@ -45,11 +45,11 @@ let rp_variant_of (s : string) : rp_variant =
   | "fixed" -> rp_fixed
   | "orig" -> rp_orig
   | _ ->
-      (* seven letters y/n: bitidx shguard nooverwrite rbflag arm resp_rb resp_nowrite *)
-      if String.length s = 7 then
+      (* eight letters y/n: bitidx shguard nooverwrite rbflag arm resp_rb resp_nowrite abort_rb *)
+      if String.length s = 8 then
         let b i = s.[i] = 'y' in
         { rp_v_bitidx = b 0; rp_v_shguard = b 1; rp_v_nooverwrite = b 2; rp_v_rbflag = b 3;
-          rp_v_arm = b 4; rp_v_resp_rb = b 5; rp_v_resp_nowrite = b 6 }
+          rp_v_arm = b 4; rp_v_resp_rb = b 5; rp_v_resp_nowrite = b 6; rp_v_abort_rb = b 7 }
       else failwith "variant"
 
 let b01 b = if b then "1" else "0"
@@ -82,14 +82,26 @@ let rpu toks =
   | _ -> failwith "rpu args"
 
 let rp_msg_of (tok : string) : rp_msg =
-  let seq = z_of_hex (String.sub tok 1 (String.length tok - 1)) in
+  (* "<kind><hexseq>[.<len>]" *)
+  let body = String.sub tok 1 (String.length tok - 1) in
+  let hex, suffix =
+    match String.index_opt body '.' with
+    | Some i -> String.sub body 0 i, String.sub body (i + 1) (String.length body - i - 1)
+    | None -> body, "" in
+  let seq = z_of_hex hex in
   let mk a e k = { rp_m_seq = seq; rp_m_auth = a; rp_m_echo = e; rp_m_kind = k } in
   match tok.[0] with
   | 'g' -> mk RpGenuine RpEchoNone RpRequest
   | 'e' -> mk RpGenuine RpEchoOk RpRequest
   | 'x' -> mk RpGenuine RpEchoBad RpRequest
   | 'f' | 'F' | 'P' -> mk RpForged RpEchoNone RpRequest
-  | 'K' | 'O' -> mk RpUnroutable RpEchoNone RpRequest
+  | 'K' | 'O' | 'M' -> mk RpUnroutable RpEchoNone RpRequest
+  (* ciphertext cut to <len> bytes: still a message that fails authentication; without any
+     payload it is dropped before a security context is looked up *)
+  | 'S' -> mk (if suffix = "0" then RpUnroutable else RpForged) RpEchoNone RpRequest
+  (* not authentic, and its processing is stopped somewhere by an allocation failure: wherever
+     that is, it has to be as if the message had never arrived (verdict printed as "*") *)
+  | 'A' -> mk RpAbort RpEchoNone RpRequest
   (* responses with a Partial IV of their own: q = answer to an Observe registration,
      N = notification, T = tampered notification, R = made-up response, Z = unknown token *)
   | 'q' | 'N' -> mk RpGenuine RpEchoNone RpResponse
@@ -102,7 +114,7 @@ let rp_msg_of (tok : string) : rp_msg =
 let verdict_letter (r : rp_verdict) : string =
   match r with
   | RpAccept -> "A" | RpRejReplay -> "R" | RpRejDecrypt -> "D" | RpRejChallenge -> "C"
-  | RpRejEchoBad -> "E" | RpRejUnroutable -> "N" | RpAcceptUnchecked -> "U"
+  | RpRejEchoBad -> "E" | RpRejUnroutable -> "N" | RpAcceptUnchecked -> "U" | RpRejAbort -> "*"
 
 let rpd toks =
   match toks with
@@ -119,7 +131,8 @@ let rpd toks =
           let cur = if second then s2 else s in
           let r, s1 = rp_recv v w b12 !cur (rp_msg_of tok') in
           cur := s1;
-          Printf.sprintf "%s,%s/%s" (verdict_letter r) (st !s) (st !s2)) msgs in
+          let letter = if tok'.[0] = 'A' then (if r = RpAccept then "A" else "*") else verdict_letter r in
+          Printf.sprintf "%s,%s/%s" letter (st !s) (st !s2)) msgs in
       if outs = [] then "-" else String.concat " " outs
   | _ -> failwith "rpd args"
 
